@@ -1,6 +1,7 @@
 import Uft.Model.Demangle
 import Uft.Lemmas.DemangleSpec
 import Uft.Lemmas.DemangleMangle
+import Uft.Lemmas.DemangleMangleT
 /-!
 # C13 — Symbol demangling is total, safe and correct for compiler-produced names
 
@@ -235,5 +236,68 @@ theorem declExample_ok : declExample.Ok where
 example : mangle declExample = [95, 90, 78, 50, 110, 115, 49, 75, 67, 49, 69, 105] := by decide
 example : demangle Fixes.all (mangle declExample).toArray = .str [110, 115, 58, 58, 75, 58, 58, 75] :=
   c13_mangle_demangle_partial declExample declExample_ok
+
+/-! ## class templates with non-type arguments: counters balanced, later components still emitted -/
+
+/-- **`dd->type`, `dd->level`, `dd->templates` are balanced by `dd_template_args`** on a well-formed argument
+    list `I <arg>+ E` whose arguments are builtin types, integer literals `L<type><k>E`, references
+    `L_Z<name>E` and addresses `XadL_Z<name><types>EE`: started with `templates == 0` and enough fuel the
+    function returns 0 in a state that differs from the entry state *only in `pos`* — in particular
+    `type`, `level`, `templates`, the output buffer and `first_name` are unchanged, so the name components that
+    follow the arguments are emitted.  (This is the invariant that a missing `dd->type--` on the `L_Z…E` path
+    of `dd_expr_primary` breaks.) -/
+theorem c13_template_args_balanced (e : Env) (st : St) (hfx : e.fx = Fixes.all) (args : List TArg) (F : Nat)
+    (rest : List UInt8) (hok : ∀ a ∈ args, a.Ok) (hF : argsNeed args ≤ F) (hl : st.len = e.n) (htm : st.templates = 0)
+    (h : Rest e st.pos (targsBytes args ++ rest)) :
+    run (F + args.length + 2) .templateArgs e st = .ok 0 { st with pos := st.pos + (targsBytes args).length } :=
+  templateArgs_eq hfx args F rest hok hF hl htm h
+
+/-- The balance does **not** hold for every successful call on arbitrary input: `dd_type` ignores the result
+    of `dd_vector_type`, which returns early after `dd->type++` on the malformed vector type `Dvx`; the
+    counter stays raised and the later component `b` is dropped (`/repo/misc/demangler _ZN1aIDvxE1bEv`
+    prints `a`; with the well-formed `Dv4_x` it prints `a::b`).  Not a compiler-produced name. -/
+theorem c13_counter_leak_malformed_witness :
+    demangle Fixes.all #[95, 90, 78, 49, 97, 73, 68, 118, 120, 69, 49, 98, 69, 118] = .str [97] := by
+  decide +kernel
+
+example : demangle Fixes.all #[95, 90, 78, 49, 97, 73, 68, 118, 52, 95, 120, 69, 49, 98, 69, 118] = .str [97, 58, 58, 98] := by
+  decide +kernel
+
+/-- **demangle ∘ mangle with template arguments**: as `c13_mangle_demangle_partial`, but every scope and the
+    innermost class / function may carry a template-argument list of builtin types, positive integer
+    literals, `L_Z…E` references to globals and `XadL_Z…EE` addresses of functions or globals (`DeclT`,
+    `mangleT`, Lemmas/DemangleMangleT.lean): the result is the qualified name without any argument list,
+    e.g. `ns::Caller<&bar>::call()` = `_ZN2ns6CallerIXadL_Z3barvEEE4callEv` ↦ `ns::Caller::call`. -/
+theorem c13_mangle_demangle_templates_partial (d : DeclT) (h : d.Ok) :
+    demangle Fixes.all (mangleT d).toArray = .str (qualifiedNameT d) := demangle_mangleT d h
+
+/-- non-vacuity: the member of a class template instantiated with the address of a function -/
+def declTExample : DeclT :=
+  { scope := [⟨[110, 115], []⟩], name := ⟨[67, 97, 108, 108, 101, 114], [.addr [98, 97, 114] [118]]⟩,
+    leaf := .ctor 49, params := [118] }
+
+example : mangleT declTExample =
+    [95, 90, 78, 50, 110, 115, 54, 67, 97, 108, 108, 101, 114, 73, 88, 97, 100, 76, 95, 90, 51, 98, 97, 114, 118, 69, 69,
+     69, 67, 49, 69, 118] := by decide
+
+theorem declTExample_ok : declTExample.Ok where
+  ids := by
+    intro c hc
+    simp only [DeclT.path, declTExample, List.cons_append, List.nil_append, List.mem_cons, List.not_mem_nil, or_false] at hc
+    rcases hc with rfl | rfl
+    · exact ⟨⟨by decide, by decide, by decide, by decide, by decide⟩, by simp⟩
+    · refine ⟨⟨by decide, by decide, by decide, by decide, by decide⟩, ?_⟩
+      intro a ha
+      simp only [List.mem_singleton] at ha
+      subst ha
+      exact ⟨⟨by decide, by decide, by decide, by decide⟩, by decide⟩
+  nocolon := by decide
+  leaf := by simp [declTExample, Leaf.Ok]; decide
+  params := by decide
+
+/-- `_ZN2ns6CallerIXadL_Z3barvEEEC1Ev` ↦ `ns::Caller::Caller` -/
+example : demangle Fixes.all (mangleT declTExample).toArray =
+    .str [110, 115, 58, 58, 67, 97, 108, 108, 101, 114, 58, 58, 67, 97, 108, 108, 101, 114] :=
+  c13_mangle_demangle_templates_partial declTExample declTExample_ok
 
 end Uft.Demangle
